@@ -66,6 +66,7 @@ type op struct {
 	kind    string
 	obj     uint64
 	enabled func() bool
+	recvOn  []uint64 // channels this blocked operation is ready to receive from (rendezvous with select-send)
 }
 
 type sched struct {
@@ -380,6 +381,22 @@ func NumCPU() int {
 		return s.opt.NumCPU
 	}
 	return realNumCPU()
+}
+
+// receiverWaiting reports whether a thread other than the running one is blocked in
+// a receive (or a select with a receive case) on channel id.
+func (s *sched) receiverWaiting(id uint64) bool {
+	for _, t := range s.threads {
+		if t == s.running || t.done || t.pending == nil {
+			continue
+		}
+		for _, r := range t.pending.recvOn {
+			if r == id {
+				return true
+			}
+		}
+	}
+	return false
 }
 
 // FaultsEnabled reports whether fault choices are offered in this execution.
